@@ -18,6 +18,12 @@ pub enum Value {
     Other(String),
 }
 
+impl PartialEq for Value {
+    fn eq(&self, other: &Value) -> bool {
+        self.total_cmp(other) == Ordering::Equal && self.rank() == other.rank()
+    }
+}
+
 impl Value {
     pub fn is_null(&self) -> bool {
         matches!(self, Value::Null)
